@@ -187,7 +187,7 @@ End WatchProofs.
    registry state (checks, catalog) after an arbitrary history [h1]; as long as no newer
    service config arrives, every table installed from then on is built from a text whose
    service part consists of exactly the lines [ls], and every such line is a command of a
-   catalog entry whose key is the key of an instance registered and healthy in that state. *)
+   catalog entry whose instance is registered and healthy in that state. *)
 Theorem unhealthy_absent (table : Type) (build : str -> option table)
         prefix status strict checks catalog ls (w : wstate table) h1 h2 t :
   config_lines prefix catalog (watch_passing prefix status strict checks) = Ok ls ->
@@ -196,10 +196,9 @@ Theorem unhealthy_absent (table : Type) (build : str -> option table)
   In t (installs table build w h1) \/
   (exists m, t = next_text (join (sort_desc ls) [10]) m /\ build t <> None) /\
   forall x, In x (sort_desc ls) ->
-    exists e n sid, In e catalog /\ In x (e_cmds e) /\
-                    inst_key (e_node e) (e_sid e) = inst_key n sid /\
-                    registered (checks_with_tag_prefix prefix checks) n sid /\
-                    healthy (checks_with_tag_prefix prefix checks) status strict n sid.
+    exists e, In e catalog /\ In x (e_cmds e) /\
+              registered (checks_with_tag_prefix prefix checks) (e_node e) (e_sid e) /\
+              healthy (checks_with_tag_prefix prefix checks) status strict (e_node e) (e_sid e).
 Proof.
   intros Hcfg Hman Hin. rewrite installs_app in Hin. apply in_app_or in Hin as [Hin|Hin]; [now left|].
   right. split; [exact (installs_after_svc table build _ _ _ Hman t Hin)|].
